@@ -238,6 +238,23 @@ def auto_discharge(f, b, s):
                     return "index or length of an in-memory collection + 1 cannot overflow usize"
                 if op == "AddWithOverflow" and all(is_call(peel(z), ["Vec::len", "slice::len", "HashMap::len", "str::len", "String::len", "HashSet::len", "BTreeMap::len", "BTreeSet::len", "VecDeque::len"]) for z in (x, y)):
                     return "sum of two in-memory collection lengths cannot overflow usize"
+                if op == "AddWithOverflow":
+                    LEN = ["Vec::len", "slice::len", "HashMap::len", "str::len", "String::len", "HashSet::len", "BTreeMap::len", "BTreeSet::len", "VecDeque::len"]
+
+                    def leaves(z, depth=0):
+                        """number of collection lengths in a sum of lengths and small constants; None when z is anything else"""
+                        z = peel(z)
+                        if is_call(z, LEN):
+                            return 1
+                        if const_int(z) is not None:
+                            return 0 if 0 <= const_int(z) < (1 << 32) else None
+                        if depth < 8 and z[0] == "field" and str(z[2]) == "0" and z[1][0] == "binop" and z[1][1] in ("AddWithOverflow", "Add"):
+                            l_, r_ = leaves(z[1][2], depth + 1), leaves(z[1][3], depth + 1)
+                            return None if l_ is None or r_ is None else l_ + r_
+                        return None
+                    lx, ly = leaves(x), leaves(y)
+                    if lx is not None and ly is not None and 0 < lx + ly <= 8:
+                        return "sum of at most 8 lengths of in-memory collections and constants below 2^32: cannot overflow usize for arguments of bounded size (each length below 2^60; the property's own bound)"
                 if op == "MulWithOverflow" and is_call(peel(x), ["str::len", "String::len", "Vec::len"]) and const_int(y) == 2:
                     return "twice the length of an in-memory string cannot overflow usize (allocations are limited to isize::MAX bytes)"
     return None
